@@ -312,20 +312,32 @@ class Repo:
         from .inline import inline_new_helpers, tag_sources, reposition, unroll_object_loops, loops_to_comprehensions
         trees = {k: v[3] for k, v in parsed.items()}
         tag_sources({k: (v[1], v[3]) for k, v in parsed.items()})
-        self.inlined = inline_new_helpers(trees)  # extracted helpers go back into their callers
-        from .inline import continue_guards_to_conditionals, lower_conditional_values
-        self.unguarded = continue_guards_to_conditionals(trees)  # `if c: continue` + rest: the conditional block
-        self.unrolled = unroll_object_loops(trees)  # loops over a literal tuple of objects: one copy of the body per object
-        self.comprehended = loops_to_comprehensions(trees)  # list-building loops: the comprehension
-        from .inline import expand_dispatch_dicts
-        self.dispatched = expand_dispatch_dicts(trees)  # `if k in D: D[k](..)` over a literal dict of names: the explicit alternatives
-        self.lowered = lower_conditional_values(trees)  # `return a if c else b`: the if / else statement
+        from .inline import continue_guards_to_conditionals, lower_conditional_values, expand_dispatch_dicts
+        self.normal_form_errors = []
+
+        def _pass(name, fn):
+            # every step of a pass replaces statements by equivalent ones, so a pass that stops half-way (a shape it did not expect) leaves a
+            # valid program: the failure is recorded and the remaining passes still run - one odd construct must not take all checks down
+            try:
+                return fn(trees)
+            except Exception as e:  # noqa: BLE001
+                self.normal_form_errors.append(f"{name}: {type(e).__name__}: {e}")
+                return []
+        self.inlined = _pass("inline_new_helpers", inline_new_helpers)  # extracted helpers go back into their callers
+        self.unguarded = _pass("continue_guards", continue_guards_to_conditionals)  # `if c: continue` + rest: the conditional block
+        self.unrolled = _pass("unroll_object_loops", unroll_object_loops)  # loops over a literal collection of objects: one body per object
+        self.comprehended = _pass("loops_to_comprehensions", loops_to_comprehensions)  # list-building loops: the comprehension
+        self.dispatched = _pass("expand_dispatch_dicts", expand_dispatch_dicts)  # `if k in D: D[k](..)`: the explicit alternatives
+        self.lowered = _pass("lower_conditional_values", lower_conditional_values)  # `return a if c else b`: the if / else statement
         touched = {c.split(":")[0] for _, c, _ in self.inlined} | {c.split(":")[0] for c, _ in self.unrolled + self.comprehended + self.unguarded + self.lowered + self.dispatched}
         for modname, (path, rel, src, tree) in parsed.items():
-            if modname in touched:
+            if modname in touched or self.normal_form_errors:
                 # positions are used to order constructs: give the normalised module consistent ones (the original file and line of
                 # every statement stay on the nodes as _src and are what reports print)
-                src, tree = reposition(tree)
+                try:
+                    src, tree = reposition(tree)
+                except Exception as e:  # noqa: BLE001
+                    self.normal_form_errors.append(f"reposition {modname}: {type(e).__name__}: {e}")
             self.modules[modname] = Module(modname, path, rel, src, tree)
         self._link()
 
